@@ -271,23 +271,27 @@ class Interp:
 
     def do_scan(self, eqn, invals):
         p = eqn.params
-        groups = p["ft_in"].update(list(range(len(invals)))).unpack()
-
-        def flat(g):
-            out = []
-            def rec(x):
-                if isinstance(x, (tuple, list)):
-                    for y in x:
-                        rec(y)
-                elif x is not None:
-                    out.append(x)
-            rec(g)
-            return out
-        gi = [flat(g) for g in groups]
-        nconst, ncarry = len(gi[0]), len(gi[1])
-        consts = invals[:nconst]; carry = list(invals[nconst:nconst + ncarry]); xs = invals[nconst + ncarry:]
-        length = p["length"]; reverse = p["reverse"]
         body = p["jaxpr"]
+        bj = body.jaxpr if hasattr(body, "consts") else body
+        length = p["length"]
+        # carries keep their shape across the scan; xs / ys gain a leading axis of size `length`
+        ncarry = 0
+        for vo, vi in zip(eqn.outvars, bj.outvars):
+            if tuple(vo.aval.shape) == tuple(vi.aval.shape):
+                ncarry += 1
+            else:
+                break
+        nxs = 0
+        for vo, vi in zip(reversed(eqn.invars), reversed(bj.invars)):
+            so, si = tuple(vo.aval.shape), tuple(vi.aval.shape)
+            if so != si and so == (length,) + si:
+                nxs += 1
+            else:
+                break
+        nconst = len(invals) - ncarry - nxs
+        assert nconst >= 0
+        consts = invals[:nconst]; carry = list(invals[nconst:nconst + ncarry]); xs = invals[nconst + ncarry:]
+        reverse = p["reverse"]
         ys = []
         order = range(length - 1, -1, -1) if reverse else range(length)
         for i in order:
